@@ -1488,8 +1488,9 @@ class Compiler:
 
         body = []
 
-        # Track the blocks of this translation
-        self._translations.append(set())
+        # Track the blocks of this translation (in document order, so
+        # that the mapping does not depend on the hashing of strings)
+        self._translations.append({})
 
         # Prepare new stream
         append = identifier("append", id(node))
@@ -1769,7 +1770,7 @@ class Compiler:
             raise TranslationError(
                 "Duplicate translation name: %s.", node.name)
 
-        self._translations[-1].add(node.name)
+        self._translations[-1][node.name] = None
         body = []
 
         # prepare new stream
